@@ -131,6 +131,7 @@ type clientSide struct {
 	tp    string
 	inner tracker.Tracker
 	n     atomic.Int64
+	env   int // ms within which a call must have ended (before slack)
 }
 
 func (c *clientSide) URL() string { return c.inner.URL() }
@@ -150,6 +151,9 @@ func (c *clientSide) Announce(ctx context.Context, req tracker.AnnounceRequest) 
 		line["iv"], line["miv"] = int(resp.Interval/time.Second), int(resp.MinInterval/time.Second)
 	}
 	c.sc.Line("ann", line)
+	// when the call came back (stamped now): the scripted servers of these families answer every request at once, so a call
+	// must end - reply or error - within `env` (loopback connect + announce, or the HTTP client's time-out) plus the slack
+	c.sc.Line("cret", map[string]any{"k": c.k, "t": 1, "n": int(n), "tp": c.tp, "dur": int(time.Since(at) / time.Millisecond), "env": c.env})
 	return resp, err
 }
 
@@ -163,6 +167,7 @@ type tierSpec struct {
 	minAn int // stop early once this many announces were seen (0 = run for durMs)
 	real  []string // "" stub | "http" | "udp": real tracker clients against scripted servers
 	gpat  string   // TLC-generated answer pattern over the announces of the whole tier
+	cid   []int    // real UDP members: class (index into annh.CidClasses) of the connection id of the first connect reply
 }
 
 type tev struct {
@@ -255,6 +260,29 @@ func genTier(seed int64, n int) []tierSpec {
 	return out
 }
 
+// genConn: real UDP tracker clients (one transport, one connect per member) whose scripted servers hand out connection ids of
+// every class - BEP 15 reserves no value, 0 included - and answer a mixed ok / error-packet / garbage pattern, so that many
+// announces (periodic ones and back-off retries) run over ONE LIVE connection: every one of them must end and be followed by
+// the next one within the envelope (C16.retry), whatever bits the connection id has.
+func genConn(seed int64, n int) []tierSpec {
+	rng := rand.New(rand.NewSource(seed*15485863 + 11))
+	var out []tierSpec
+	for i := 0; i < n; i++ {
+		nm := 1 + rng.Intn(2)
+		sp := tierSpec{kind: "udpconn", name: fmt.Sprintf("udpconn%d", i+1), need: true, durMs: 9000, minAn: 3*nm + 4}
+		for j := 0; j < nm; j++ {
+			sp.real = append(sp.real, "udp")
+			sp.pats = append(sp.pats, randPat(rng, 5, 0.6, "FG")+"O")
+			sp.cid = append(sp.cid, (i+3*j)%len(annh.CidClasses))
+		}
+		if i%4 == 3 { // an HTTP member in the same tier: the UDP member is revisited after a fail-over cycle
+			sp.real, sp.pats, sp.cid = append(sp.real, "http"), append(sp.pats, "FO"), append(sp.cid, -1)
+		}
+		out = append(out, sp)
+	}
+	return out
+}
+
 func runTier(sp tierSpec, stall *stallMeter) *annh.Sc {
 	sc := annh.NewSc(sp.name, sp.kind)
 	sc.Unit, sc.Cmin, sc.Bo, sc.Lat, sc.Slk, sc.Gslack = unitMs, cminMs, boMs, 500, 4000, 1000
@@ -328,6 +356,9 @@ func runTier(sp tierSpec, stall *stallMeter) *annh.Sc {
 			}
 			k.TorOf = 1
 			k.Quiet = true // recorded on the client side (see clientSide)
+			if sp.cid != nil {
+				k.CidOff = sp.cid[j]
+			}
 			closers = append(closers, k.Close)
 			ts = append(ts, k)
 			m, err := tm.Get(k.URL(), 2*time.Second, "c16", 1<<20)
@@ -335,7 +366,11 @@ func runTier(sp tierSpec, stall *stallMeter) *annh.Sc {
 				sc.Fail("get: %v", err)
 				return sc
 			}
-			members = append(members, &clientSide{sc: sc, k: j + 1, tp: sp.real[j], inner: m})
+			env := sc.Lat
+			if sp.real[j] == "http" {
+				env += sc.HTTPTO
+			}
+			members = append(members, &clientSide{sc: sc, k: j + 1, tp: sp.real[j], inner: m, env: env})
 			ks = append(ks, j+1)
 			sc.Trk = append(sc.Trk, annh.TrkCfg{UDP: sp.real[j] == "udp", Dest: j + 1, Up0: false})
 		}
@@ -383,7 +418,12 @@ func runTier(sp tierSpec, stall *stallMeter) *annh.Sc {
 	ei := 0
 	for {
 		el := int(time.Since(t0) / time.Millisecond)
-		if el >= sp.durMs || (sp.minAn > 0 && count() >= sp.minAn && ei >= len(sp.evs)) {
+		if sp.minAn > 0 && count() >= sp.minAn && ei >= len(sp.evs) {
+			break
+		}
+		// (udpconn: the window grows with the time the machine demonstrably lost, like the slack of the deadlines does, so that a
+		// call that never ends stays distinguishable from a slow one on a loaded machine)
+		if el >= sp.durMs && (sp.kind != "udpconn" || el >= sp.durMs+min(2*stall.since(s0), 20000)) {
 			break
 		}
 		if ei < len(sp.evs) && el >= sp.evs[ei].atMs {
@@ -480,8 +520,9 @@ func (s *stallMeter) maxSince(mark int) int {
 
 type shareSpec struct {
 	name    string
-	variant string // ownerstops | waiterstops | nostop
+	variant string // ownerstops | waiterstops | nostop | latejoin (the second torrent starts on the LIVE connection; both re-announce on it)
 	delayMs int
+	cid     int // class of the connection id (index into annh.CidClasses; -1: derived from the names)
 }
 
 func runShare(sp shareSpec, root string, seed int64, stall *stallMeter) *annh.Sc {
@@ -498,15 +539,21 @@ func runShare(sp shareSpec, root string, seed int64, stall *stallMeter) *annh.Sc
 		return sc
 	}
 	defer env.Close()
-	k, err := annh.NewTrk(sc, 1, true, func(n int, r vh.AnnReq) annh.Rep { return annh.OK(vh.I64(1800), nil) })
+	late := sp.variant == "latejoin"
+	k, err := annh.NewTrk(sc, 1, true, func(n int, r vh.AnnReq) annh.Rep {
+		if late { // short interval: the torrents (they need peers) re-announce every TrackerMinAnnounceInterval on the live connection
+			return annh.OK(vh.I64(1), nil)
+		}
+		return annh.OK(vh.I64(1800), nil)
+	})
 	if err != nil {
 		sc.Fail("tracker: %v", err)
 		return sc
 	}
 	defer k.Close()
+	k.CidOff = sp.cid
 	connSeen := make(chan struct{}, 16)
-	k.U.Connect = func(n int) (bool, time.Duration) {
-		sc.Line("note", map[string]any{"what": "connect-request", "n": n})
+	k.OnConnect = func(n int) (bool, time.Duration) {
 		select {
 		case connSeen <- struct{}{}:
 		default:
@@ -546,6 +593,10 @@ func runShare(sp shareSpec, root string, seed int64, stall *stallMeter) *annh.Sc
 		sc.Fail("no connect request seen")
 		return sc
 	}
+	if late && !annh.WaitUntil(time.Duration(sp.delayMs+5000)*time.Millisecond, func() bool { return k.Count.Load() >= 1 }) {
+		sc.Fail("first announce not seen")
+		return sc
+	}
 	if !start(1) {
 		return sc
 	}
@@ -570,13 +621,19 @@ func runShare(sp shareSpec, root string, seed int64, stall *stallMeter) *annh.Sc
 	// the survivor(s) must get an announce through: at the latest one back-off after the abort (7.5 s) + connect delay
 	deadline := time.Now().Add(time.Duration(7500+sp.delayMs+500+4000+300) * time.Millisecond)
 	seen := func() bool {
-		need := map[int]bool{1: true, 2: true}
+		need := map[int]int{1: 1, 2: 1}
+		if late {
+			need = map[int]int{1: 3, 2: 3}
+		}
 		if stopped >= 0 {
 			delete(need, stopped+1)
 		}
 		for _, l := range sc.Lines() {
 			if l["op"] == "ann" && l["ev"] != "stopped" {
-				delete(need, l["t"].(int))
+				t := l["t"].(int)
+				if need[t]--; need[t] <= 0 {
+					delete(need, t)
+				}
 			}
 		}
 		return len(need) == 0
@@ -711,6 +768,7 @@ func main() {
 	seed := flag.Int64("seed", 1, "")
 	nTier := flag.Int("ntier", 16, "announcer-level scenarios")
 	nShare := flag.Int("nshare", 3, "udp-sharing session scenarios")
+	nConn := flag.Int("nconn", 8, "announcer-level scenarios over real UDP clients with connection ids of every class")
 	nSess := flag.Int("nsess", 0, "session-level tier scenarios (slow: real back-off)")
 	nFuzz := flag.Int("nfuzz", 40, "random reply mutations per transport (in addition to the fixed tables)")
 	par := flag.Int("par", 12, "")
@@ -760,9 +818,12 @@ func main() {
 		defer wg.Done()
 		fz = fuzzParent(*seed, *nFuzz, *root)
 	}()
-	variants := []string{"ownerstops", "waiterstops", "nostop"}
+	variants := []string{"ownerstops", "waiterstops", "nostop", "latejoin"}
 	for i := 0; i < *nShare; i++ {
-		sp := shareSpec{name: fmt.Sprintf("share%d", i+1), variant: variants[i%3], delayMs: 1200 + 300*(i%3)}
+		sp := shareSpec{name: fmt.Sprintf("share%d", i+1), variant: variants[i%4], delayMs: 1200 + 300*(i%3), cid: -1}
+		if sp.variant == "latejoin" { // every connection-id class in turn, starting with 0
+			sp.cid, sp.delayMs = (i/4)%len(annh.CidClasses), 300
+		}
 		i := i
 		goRun(func() *annh.Sc { return runShare(sp, *root, *seed*100+int64(i), stall) })
 	}
@@ -779,6 +840,10 @@ func main() {
 		goRun(func() *annh.Sc { return runSessTier(name, pats, *root, *seed*100+50+int64(i), 75000, stall) })
 	}
 	for _, sp := range genTier(*seed, *nTier) {
+		sp := sp
+		goRun(func() *annh.Sc { return runTier(sp, stall) })
+	}
+	for _, sp := range genConn(*seed, *nConn) {
 		sp := sp
 		goRun(func() *annh.Sc { return runTier(sp, stall) })
 	}
